@@ -91,7 +91,7 @@ func c20Client(prefix []int, mode string, variant string) explore.Outcome {
 }
 
 func c20Server(prefix []int, variant string) explore.Outcome {
-	if variant == "notify-vs-streams" {
+	if variant == "notify-vs-streams" || variant == "open-vs-send" {
 		// an http.ResponseWriter used by two goroutines at once is a data race inside net/http: reported
 		// through the non-atomic writer model (there is no net/http for ThreadSanitizer to look into here)
 		defer nonAtomicWriters()()
@@ -161,6 +161,20 @@ func c20Server(prefix []int, variant string) explore.Outcome {
 			vsched.Go("filtered", func() {
 				r.Server.SendFilteredNotification("notifications/message", shared, func(string) bool { return true })
 			})
+		case "open-vs-send":
+			// the session's first listening stream is being opened while the server already sends to the session
+			if err := rp.Handshake(); err != nil {
+				viol = append(viol, V("setup-handshake-fails", "setting the scenario up with well-behaved peers fails: %v", err))
+				return
+			}
+			vsched.Quiesce()
+			vsched.SetBranching(true)
+			sid := rp.SID
+			vsched.Go("open", func() { rp.OpenStream() })
+			vsched.Go("send", func() {
+				r.Server.SendNotification(sid, "notifications/message", map[string]interface{}{"n": 1})
+				r.Server.SendNotification(sid, "notifications/message", map[string]interface{}{"n": 2})
+			})
 		case "notify-vs-streams":
 			if err := rp.Handshake(); err != nil {
 				viol = append(viol, V("setup-handshake-fails", "setting the scenario up with well-behaved peers fails: %v", err))
@@ -190,7 +204,7 @@ func c20Server(prefix []int, variant string) explore.Outcome {
 }
 
 var c20ClientVariants = []string{"calls", "config", "terminate", "close", "roots-changed"}
-var c20ServerVariants = []string{"session-object", "init-vs-register", "notify-vs-streams", "shared-params"}
+var c20ServerVariants = []string{"session-object", "init-vs-register", "notify-vs-streams", "shared-params", "open-vs-send"}
 
 func init() {
 	for _, mode := range []string{"ss", "sj", "ls", "io"} {
